@@ -283,7 +283,7 @@ def gen_contest(rng, tier, like=None):
     names = rng.choice(NAMES)
     nc = rng.choice([2, 2, 3, 3, 3, 4, 4, 5, 6])
     cands = list(names[:nc])
-    if rng.chance(0.03):
+    if rng.chance(0.03) and "" not in cands:
         cands[rng.randrange(nc)] = ""            # a falsy candidate name (Contest.tally skips such keys)
     rng.shuffle(cands)
     scf = rng.choice([PLUR, PLUR, PLUR, APPR, SUPER, SUPER])
@@ -329,7 +329,7 @@ def gen_contest(rng, tier, like=None):
         if rng.chance(p_over):
             nm = min(nc, nm + rng.randint(1, 2))
         chosen = set()
-        while len(chosen) < min(nm, nc):
+        while len(chosen) < min(nm, len(set(cands))):
             chosen.add(rng.choices(cands, wts)[0])
         ek = []
         if rng.chance(p_outside):
